@@ -64,6 +64,8 @@ type Obligation struct {
 }
 
 type Exec struct {
+	coverBudget int // blocks still to be covered after the last modelled/contracted call
+	blockCovers int
 	atcallHits map[*Clause]int // atcall clauses: number of call sites they were checked at
 	tinvDone        map[string]bool
 	inHavoc         bool        // modelling a callee's or a loop's writes, not a write of the function under verification
@@ -551,6 +553,15 @@ func (x *Exec) runBody(fr *Frame, entry *State) {
 		}
 		st := x.merge(states)
 		x.sc.Comment(fmt.Sprintf("block %s.%d %s", fn.Name(), b.Index, b.Comment))
+		// vacuity guard: a block entered shortly after a modelled or contracted
+		// call must be reachable (a model whose success case contradicts the
+		// representation invariants would make everything after it vacuous)
+		if x.coverBudget > 0 && x.blockCovers < 40 && !fr.inline && len(b.Preds) > 0 && !x.declaredDead(fr, b) {
+			x.coverBudget--
+			x.blockCovers++
+			o := x.obligation(st, "cover", fmt.Sprintf("%s:block#%d:cover", x.fname(fr), b.Index), TFalse, fnProps(fr), "block "+b.Comment+" reachable", "")
+			o.Cover = true
+		}
 		// phis
 		phiVals := map[*ssa.Phi]*Val{}
 		for _, ins := range b.Instrs {
@@ -1061,4 +1072,46 @@ func sortedIntKeys(m map[int]types.Type) []int {
 	}
 	sort.Ints(ks)
 	return ks
+}
+
+// declaredDead: the contract lists the block (by the source text of one of its
+// statements or of the branch leading to it) as unreachable.
+func (x *Exec) declaredDead(fr *Frame, b *ssa.BasicBlock) bool {
+	if fr.c == nil {
+		return false
+	}
+	var texts []string
+	for _, cl := range fr.c.Clauses {
+		if cl.Kind == "unreachable" {
+			texts = append(texts, strings.Join(strings.Fields(cl.Text), " "))
+		}
+	}
+	if len(texts) == 0 {
+		return false
+	}
+	var lines []string
+	add := func(p token.Pos) {
+		if p.IsValid() {
+			pp := x.w.prog.Fset.Position(p)
+			lines = append(lines, strings.Join(strings.Fields(x.w.sourceLine(pp.Filename, pp.Line)), " "))
+		}
+	}
+	for _, ins := range b.Instrs {
+		add(ins.Pos())
+	}
+	for _, p := range b.Preds {
+		if len(p.Instrs) > 0 {
+			if iff, ok := p.Instrs[len(p.Instrs)-1].(*ssa.If); ok {
+				add(iff.Cond.Pos())
+			}
+		}
+	}
+	for _, l := range lines {
+		for _, t := range texts {
+			if t != "" && strings.Contains(l, t) {
+				return true
+			}
+		}
+	}
+	return false
 }
